@@ -276,7 +276,27 @@ def drive_to_end(run, rng, fail=(), hang_s=None, order='random', max_s=120, hold
             run.release(t, (fail[t] if isinstance(fail, dict) else 1) if t in fail else 0)
             continue
         if run.idle_for(0.25):
-            # nothing pending for a while: either finished scripts are being processed, or the engine is stuck
-            if not run.pending() and run.idle_for(hang_s):
+            # nothing pending for a while: either finished scripts are being processed, or the engine is stuck.  The long wait
+            # is abandoned as soon as a script starts and waits for its gate (a start may come late on a loaded machine): only a
+            # full quiet period WITH NOTHING PENDING at its end is "idle"
+            if not run.pending() and idle_unless_pending(run, hang_s) and not run.pending():
                 return 'alive-idle'
     return 'hung'
+
+
+def idle_unless_pending(run, seconds):
+    """True when the process stayed alive with an unchanged trace for `seconds`; False as soon as it exits or a gated script is
+    waiting to be released"""
+    last = run.trace()
+    t0 = time.time()
+    while time.time() - t0 < seconds:
+        time.sleep(0.05)
+        if run.poll() is not None:
+            return False
+        cur = run.trace()
+        if cur != last:
+            if run.pending():
+                return False
+            last = cur
+            t0 = time.time()
+    return True
